@@ -124,8 +124,10 @@ let () =
            let dc0 = int_of_nat dc0 in
            let cs = List.init comps (fun i -> (lmx_of_mat (mat_col means i), lmx_of_mat (mat_block_cols covs (i * dc0) dc0))) in
            let q = Caseio.get_int c "aug" in
-           let aug = if q > 0 then Some (nat_of_int q, lmx_of_mat (Caseio.get_mat c "Qaug")) else None in
-           let l' = { l with l_noise = nat_of_int q } in
+           let q2 = if Caseio.has c "aug2" then Caseio.get_int c "aug2" else 0 in
+           let aug = (if q > 0 then [ (nat_of_int q, lmx_of_mat (Caseio.get_mat c "Qaug")) ] else [])
+                     @ (if q2 > 0 then [ (nat_of_int q2, lmx_of_mat (Caseio.get_mat c "Qaug2")) ] else []) in
+           let l' = { l with l_noise = nat_of_int (q + q2) } in
            let ((d, dc), dx) = c03_dims l' in
            let d = int_of_nat d and dc = int_of_nat dc and dx = int_of_nat dx in
            let ((p, pc), _) = c03_dims lout in
